@@ -14,14 +14,14 @@ var (
 	profC07 = sim.Profile{Name: "c07", Widen: 0.3, EDSFaults: 0.2, Steps: 110, CanaryProb: 1, Hostile: 3, Churn: 0.7, Edits: 1.5, Holds: 0.5, Commands: 2, DupPods: 0.2, Affinity: -1, MaxNodes: 6, Converge: true, Retention: true}
 	profC08 = sim.Profile{Name: "c08", Steps: 120, CanaryProb: 0.5, Hostile: 1, Churn: 3, Edits: 1.5, Holds: 4, Commands: 3, DupPods: 0.3, Affinity: -1, MaxNodes: 7, Converge: true}
 	profC12 = sim.Profile{Name: "c12", Steps: 160, CanaryProb: 0.5, Hostile: 1, Churn: 1, Edits: 2, Holds: 0.5, Commands: 0.7, DupPods: 1, Affinity: -1, MaxNodes: 5, MultiEDS: true, OldDS: 0.3, Overrides: 1.5}
-	profC13 = sim.Profile{Name: "c13", RSFaults: 0.15, EnvOrder: 0.5, Steps: 140, CanaryProb: 0.5, Hostile: 1, Churn: 0.7, Edits: 5, Holds: 0.5, Commands: 0.7, DupPods: 0.3, Affinity: -1, MaxNodes: 5, Converge: true}
+	profC13 = sim.Profile{Name: "c13", ReadFaults: 0.05, RSFaults: 0.15, EnvOrder: 0.5, Steps: 140, CanaryProb: 0.5, Hostile: 1, Churn: 0.7, Edits: 5, Holds: 0.5, Commands: 0.7, DupPods: 0.3, Affinity: -1, MaxNodes: 5, Converge: true}
 	profC14 = sim.Profile{Name: "c14", Steps: 100, CanaryProb: 0.5, Hostile: 2, Churn: 1.5, Edits: 1.5, Holds: 1, Commands: 1, DupPods: 1, Affinity: -1, MaxNodes: 6, Converge: true}
 	profC09 = sim.Profile{Name: "c09", Steps: 140, CanaryProb: 0.3, Hostile: 1, Churn: 2, Edits: 2, Holds: 0.3, Commands: 0.3, DupPods: 1.5, Affinity: -1, MaxNodes: 8, PodFaults: 0.25, Burst: 4}
-	profC03 = sim.Profile{Name: "c03", OldDS: 0.3, Steps: 150, CanaryProb: 0.4, Hostile: 2, Churn: 2.5, Edits: 3.5, Holds: 0.2, Commands: 0.3, DupPods: 0.5, Affinity: -1, MaxNodes: 10}
+	profC03 = sim.Profile{Name: "c03", PodFaults: 0.1, OldDS: 0.3, Steps: 150, CanaryProb: 0.4, Hostile: 2, Churn: 2.5, Edits: 3.5, Holds: 0.2, Commands: 0.3, DupPods: 0.5, Affinity: -1, MaxNodes: 10}
 	profC05 = sim.Profile{Name: "c05", Steps: 140, CanaryProb: 1, Hostile: 2.5, Churn: 1, Edits: 2.5, Holds: 1, Commands: 1.5, DupPods: 0.3, Affinity: -1, MaxNodes: 6}
 	profC15 = sim.Profile{Name: "c15", Steps: 120, CanaryProb: 1, Hostile: 1, Churn: 4, Edits: 2.5, Holds: 0.3, Commands: 0.5, DupPods: 0.3, Affinity: -1, MaxNodes: 9}
-	profC10 = sim.Profile{Name: "c10", Overrides: 4, Steps: 150, CanaryProb: 0.4, Hostile: 1, Churn: 2, Edits: 1.5, Holds: 0.3, Commands: 0.3, DupPods: 0.5, Affinity: -1, MaxNodes: 8, Converge: true}
-	profC19 = sim.Profile{Name: "c19", Steps: 140, CanaryProb: 1, Hostile: 1.5, Churn: 0.7, Edits: 1.5, Holds: 0.8, Commands: 5, DupPods: 0.2, Affinity: -1, MaxNodes: 5, Converge: true}
+	profC10 = sim.Profile{Name: "c10", ReadFaults: 0.05, Overrides: 4, Steps: 150, CanaryProb: 0.4, Hostile: 1, Churn: 2, Edits: 1.5, Holds: 0.3, Commands: 0.3, DupPods: 0.5, Affinity: -1, MaxNodes: 8, Converge: true}
+	profC19 = sim.Profile{Name: "c19", EDSFaults: 0.08, Steps: 140, CanaryProb: 1, Hostile: 1.5, Churn: 0.7, Edits: 1.5, Holds: 0.8, Commands: 5, DupPods: 0.2, Affinity: -1, MaxNodes: 5, Converge: true}
 	profC16 = sim.Profile{Name: "c16", Steps: 130, CanaryProb: 0.8, Hostile: 2, Churn: 1.5, Edits: 6, Holds: 0.8, Commands: 1, DupPods: 0.5, Affinity: -1, MaxNodes: 5, Overrides: 1}
 	profC02 = sim.Profile{Name: "c02", Steps: 80, CanaryProb: 0.5, Hostile: 1.5, Churn: 1.5, Edits: 1.5, Holds: 0.7, Commands: 0.5, DupPods: 0.5, Affinity: -1, MaxNodes: 6, Converge: true, OldDS: 0.15}
 )
@@ -46,7 +46,7 @@ func registry() core.Registry {
 		"C04": one(&sim.Sim{Prop: "C04", P: profC04, NQuick: 600, NThor: 6000, FloorsQ: map[string]int{"C04.canary-role-creates": 400, "C04.label-on-judged": 250, "C04.canary-list-growth-judged": 800, "C04.canary-steady-states-judged": 30}}, &sim.Sim{Prop: "C04", P: nested(profC04, 0.12), NQuick: 400, NThor: 4000, FloorsQ: map[string]int{"sim.nested-yields": 5000}}),
 		"C07": one(&sim.Sim{Prop: "C07", P: profC07, NQuick: 500, NThor: 6000, FloorsQ: map[string]int{"C07.rollbacks-judged": 30, "C07.failed-rs-deletes-judged": 40, "C07.retention-phases": 10}}, &sim.Sim{Prop: "C07", P: nested(profC07, 0.12), NQuick: 250, NThor: 3000, FloorsQ: map[string]int{}}, &sim.Sim{Prop: "C07", P: nested(profC19, 0.15), NQuick: 300, NThor: 4000, FloorsQ: map[string]int{}}),
 		"C08": one(&sim.C08Script{}, &sim.Sim{Prop: "C08", P: profC08, NQuick: 600, NThor: 6000, FloorsQ: map[string]int{"C08.paused-syncs": 1000, "C08.frozen-syncs": 1000}}, &sim.Sim{Prop: "C08", P: nested(profC08, 0.12), NQuick: 400, NThor: 4000, FloorsQ: map[string]int{"sim.nested-yields": 4000}}),
-		"C11": one(&sim.C11{}),
+		"C11": one(&sim.C11{}, &sim.Sim{Prop: "C11", P: nested(profC19, 0.15), NQuick: 300, NThor: 4000, FloorsQ: map[string]int{}}, &sim.Sim{Prop: "C11", P: nested(profC05, 0.15), NQuick: 300, NThor: 4000, FloorsQ: map[string]int{}}),
 		"C12": one(&sim.Sim{Prop: "C12", P: profC12, NQuick: 500, NThor: 5000, FloorsQ: map[string]int{"C12.writes-judged": 20000}}, &sim.Sim{Prop: "C12", P: nested(profC12, 0.12), NQuick: 250, NThor: 2500, FloorsQ: map[string]int{}}),
 		"C13": one(&sim.Sim{Prop: "C13", P: profC13, NQuick: 500, NThor: 5000, FloorsQ: map[string]int{"C13.rs-creates-judged": 2000, "C13.rs-deletes-judged": 1500, "C13.podtemplate-judged": 5000}}, &sim.Sim{Prop: "C13", P: nested(profC13, 0.12), NQuick: 250, NThor: 2500, FloorsQ: map[string]int{}}, &sim.C13Conc{}),
 		"C05": one(&fn.C05{}, &sim.Sim{Prop: "C05", P: profC05, NQuick: 500, NThor: 6000, FloorsQ: map[string]int{"C05.sim-promotions-judged": 200, "C05.sim-reconciles-with-canary-candidate": 800}}, &sim.Sim{Prop: "C05", P: nested(profC05, 0.12), NQuick: 250, NThor: 3000, FloorsQ: map[string]int{}}),
